@@ -66,7 +66,9 @@ class Ctx:
     def e1(self, config="std"):
         k = (config, self.tier)
         if k not in self._e1:
-            self._e1[k] = pipeline.ensure_e1(config, "quick" if self.tier == "quick" else "thorough")
+            # both tiers interpret at the same inline depth (proof outcomes must not depend on the tier); the thorough
+            # tier adds the alloc-only and core-only feature configurations of the crate
+            self._e1[k] = pipeline.ensure_e1(config, "quick")
         return self._e1[k]
 
 
